@@ -128,6 +128,7 @@ class SimConn(object):
         self.alive = True
         self.stalled = False
         self.closing = False      # client-initiated clean close in progress
+        self.lingering = False    # ... whose connectionLost has not been delivered yet
         self.handshaken = False
         self.replies = []         # client control frames to deliver (pong/close)
         self.missed_pings = []
@@ -635,6 +636,8 @@ class World(object):
                     c.replies = []
                     moved = True
                     self._deliver(c, data)
+                if c.alive and c.st.disconnecting and c.lingering:
+                    continue      # close handshake done; the TCP connection goes away later
                 if c.alive and c.st.disconnecting:
                     moved = True
                     if not c.closing:
@@ -747,7 +750,7 @@ class World(object):
                                      "frame_no": len(self.cur.frames) - 1})
 
     # ---------------------------------------------------------------- sends
-    def send(self, cid, msgs, step=None, seg=None, kind="send", raw=None):
+    def send(self, cid, msgs, step=None, seg=None, kind="send", raw=None, wire=None):
         """deliver one or several commands of connection cid to the server.
         msgs: list of JSON-able objects (one websocket text frame each), all in
         one TCP segment unless seg (list of cut offsets as fractions) splits it."""
@@ -771,7 +774,11 @@ class World(object):
             ev.notes["noop"] = "connection not usable"
             self.end()
             return ev
-        data = c.held + b"".join(wf.encode_text(m, c.mask()) for m in msgs)
+        if wire:
+            self.count("fault_ws_fragmented" if wire.get("frag") else "fault_ws_ping")
+            data = c.held + b"".join(wf.encode_text_wire(m, c.mask, wire) for m in msgs)
+        else:
+            data = c.held + b"".join(wf.encode_text(m, c.mask()) for m in msgs)
         c.held = b""
         if seg:
             cuts = sorted(set(max(1, min(len(data) - 1, int(f * len(data)))) for f in seg)) if len(data) > 1 else []
@@ -826,6 +833,17 @@ class World(object):
             if c.alive:
                 # server did not drop the transport by itself: the client closes the socket
                 self._conn_lost(c, ConnectionDone())
+        elif how == "closing":
+            # the websocket close handshake only: the server answers and asks its transport to
+            # close, but the TCP teardown (connectionLost) reaches it later ("finish")
+            self.count("fault_conn_close_lingering")
+            c.closing = True
+            c.lingering = True
+            self._deliver(c, wf.encode_frame(wf.OP_CLOSE, b"\x03\xe8", c.mask()))
+            self._settle()
+        elif how == "finish":
+            c.lingering = False
+            self._conn_lost(c, ConnectionDone())
         elif how == "stall":
             self.count("fault_conn_stall")
             c.stalled = True
